@@ -10,7 +10,7 @@ ORDER_FREE = ('match', 'add', 'min', 'max', 'replace')
 CASE_T = 'etype * list mevent * list (str * list (str * Z)) * option mevent'
 AGREE = ('fun c => match c with (et, evs, tbl, out) => result_eqb (merge (rank_table tbl) FirstSet et evs) out end')
 STREAM_IMPORTS = 'From EdxmlVerif Require Import Base.Prelude Event.Merge Event.Stream.'
-STREAM_T = 'etype * list (N * mevent) * list (str * list (str * Z)) * nat * option (list (N * mevent))'
+STREAM_T = 'etype * list (str * mevent) * list (str * list (str * Z)) * nat * option (list (str * mevent))'
 STREAM_AGREE = ('fun c => match c with (et, s, tbl, n, out) => out_eqb '
                 '(match n with O => match fold_merger (rank_table tbl) FirstSet et [] s with Some b => Some b | None => None end '
                 '| _ => buffered (rank_table tbl) FirstSet et true n [] 0 s end) out end')
@@ -238,9 +238,9 @@ def main(argv):
             if nbuf == 0 and len(outs) != len(logical_ref):
                 ck.oracle_failures.append({'signature': 'stream/unbuffered-output-count', 'input': {'etype': et, 'stream': stream, 'buffer': 0},
                                            'observed': '%d output events for %d hashes' % (len(outs), len(logical_ref))})
-            out_term = C('Some', [(g, C('Build_mevent', [(k, v) for k, v in o['props'].items()], o['parents'], max(o['tag'], 0))) for g, o in tagged])
+            out_term = C('Some', [('g%d' % g, C('Build_mevent', [(k, v) for k, v in o['props'].items()], o['parents'], max(o['tag'], 0))) for g, o in tagged])
             from common.core import Nat
-            sterms.append(coq((M.et_term(et), [(g, M.ev_term(e)) for g, e in stream], M.rank_tables(et), Nat(nbuf), out_term)))
+            sterms.append(coq((M.et_term(et), [('g%d' % g, M.ev_term(e)) for g, e in stream], M.rank_tables(et), Nat(nbuf), out_term)))
             smetas.append({'etype': et, 'stream': stream, 'buffer': nbuf})
         ck.sample({'etype': et, 'stream': stream[:4]}, limit=2)
     bad2, errs2 = run_cases(PID, STREAM_IMPORTS, STREAM_T, sterms, STREAM_AGREE, shard=60, tag='stream')
